@@ -36,6 +36,40 @@ class SymArray(_np.ndarray):
             return float(self.reshape(-1)[0])
         raise TypeError("only length-1 arrays can be converted")
 
+    def __array_ufunc__(self, ufunc, method, *inputs, out=None, **kwargs):
+        """`typed_array op= real_array` (e.g. float64 `+=` an array allocated as float, which is an object array in a
+        symbolic run): constants cross the boundary as floats; a genuinely symbolic value cannot be stored there."""
+        if out is not None and any(isinstance(o, _np.ndarray) and o.dtype != object for o in out):
+            conv = []
+            for a in inputs:
+                if isinstance(a, _np.ndarray) and a.dtype == object:
+                    flat = a.reshape(-1)
+                    vals = _np.empty(flat.size, dtype=float)
+                    for i in range(flat.size):
+                        v = flat[i]
+                        if isinstance(v, Sym):
+                            if not v.is_const():
+                                raise HarnessError("symbolic value stored into a typed (non-object) array through %s" % ufunc.__name__)
+                            v = v.const()
+                        vals[i] = float(v)
+                    conv.append(vals.reshape(a.shape))
+                else:
+                    conv.append(a)
+            return getattr(ufunc, method)(*conv, out=out, **kwargs)
+        # default behaviour (what ndarray subclass propagation did before this override existed)
+        args = [a.view(_np.ndarray) if isinstance(a, SymArray) else a for a in inputs]
+        if out is not None:
+            kwargs["out"] = tuple(o.view(_np.ndarray) if isinstance(o, SymArray) else o for o in out)
+        res = getattr(ufunc, method)(*args, **kwargs)
+        if out is not None:
+            return out[0] if len(out) == 1 else out
+
+        def wrap(r):
+            if type(r) is _np.ndarray:
+                return r[()] if r.ndim == 0 else r.view(SymArray)
+            return r
+        return tuple(wrap(r) for r in res) if isinstance(res, tuple) else wrap(res)
+
 
 def symarray(vals):
     a = _np.empty(len(vals), dtype=object)
@@ -123,6 +157,8 @@ class NPProxy:
         out = _np.empty(shape, dtype=object)
         flat = out.reshape(-1)
         v = Sym.lift(value)
+        if v is None:
+            v = value          # nan / inf fill (e.g. padding): stays the float it is
         for i in range(flat.size):
             flat[i] = v
         return out.view(SymArray)
